@@ -158,6 +158,34 @@ fn gen_history(r: &mut crate::rng::Rng, catalogs: bool) -> Vec<J> {
             push(&mut ops, &mut m, json!({"op": "create_kg", "kg": "k2"}));
         }
     }
+    if !catalogs && r.chance(1, 3) {
+        // directed shape: a relation with flushed batches AND later updates that live only in the WAL, then a
+        // structural operation on it (drop of the relation / of its graph, compaction), then more writes
+        let in_k2 = r.chance(1, 3);
+        if in_k2 {
+            push(&mut ops, &mut m, json!({"op": "create_kg", "kg": "k2"}));
+        }
+        let kg = if in_k2 { "k2" } else { "default" };
+        let rel = *r.pick(&["r", "s"]);
+        let mut ins = |ops: &mut Vec<J>, m: &mut Model, r: &mut crate::rng::Rng, next: &mut i64| {
+            let cnt = 1 + r.below(3);
+            let ids: Vec<i64> = (0..cnt).map(|_| { *next += 1; *next }).collect();
+            model_apply(m, &json!({"op": "insert", "kg": kg, "rel": rel, "ids": ids}));
+            ops.push(json!({"op": "insert", "kg": kg, "rel": rel, "ids": ids}));
+        };
+        ins(&mut ops, &mut m, r, &mut next);
+        ins(&mut ops, &mut m, r, &mut next);
+        push(&mut ops, &mut m, if r.chance(1, 2) { json!({"op": "save"}) } else { json!({"op": "save_kg", "kg": kg}) });
+        ins(&mut ops, &mut m, r, &mut next);
+        if r.chance(1, 2) {
+            ins(&mut ops, &mut m, r, &mut next);
+        }
+        match r.below(4) {
+            0 | 1 => push(&mut ops, &mut m, json!({"op": "drop_rel", "kg": kg, "rel": rel})),
+            2 if in_k2 => push(&mut ops, &mut m, json!({"op": "drop_kg", "kg": "k2"})),
+            _ => push(&mut ops, &mut m, json!({"op": "compact"})),
+        }
+    }
     while ops.len() < n {
         let kgs: Vec<String> = m.keys().cloned().collect();
         let kg = r.pick(&kgs).clone();
@@ -296,7 +324,10 @@ fn run_both(ctx: &mut Ctx, catalogs: bool) {
                 }
                 cursor += 1;
             }
-            if n % stride != 0 && ci != *idxs.last().unwrap() {
+            // sampled by stride, except that every structural mutation (rename, unlink, truncate, re-open with
+            // truncation: the commit points of flush / compaction / WAL rewrite / drop) is always taken
+            let structural = matches!(&parsed.muts[ci], Mut::Rename(..) | Mut::Unlink(..) | Mut::Truncate(..) | Mut::Rmdir(..) | Mut::Open(_, true));
+            if n % stride != 0 && ci != *idxs.last().unwrap() && !structural {
                 continue;
             }
             let lanes: Vec<(&str, Vfs)> = {
